@@ -212,3 +212,6 @@ def run(ck):
     common.import_results(ck, C15, "2", "Async::new", "4")
     common.import_results(ck, C16, "1", "Async", "4")
     common.import_results(ck, C16, "1", "IoLoopInner", "4")
+    # a second adapt_io() of an fd that fails (EEXIST) must not delete the registration of the adapter that owns it: its
+    # suspended task would never be woken (the registered flag is set only after the poller accepted the fd: C15.4)
+    common.import_results(ck, C15, "4", "IoLoopInner", "2")
